@@ -102,6 +102,8 @@ def p_new_recorder(I, args, kwargs, node):
 def _as_chg_list(I, v):
     if isinstance(v, SList):
         return v
+    if isinstance(v, Opaque):
+        return fresh_value(I.ctx, CHG_LIST, "unknown_changes")  # a list the engine knows nothing about
     if isinstance(v, PyList) and not v.items:
         return slist_of(I.ctx, [], parse_ty("Chg"))
     raise Unsupported(f"apply_all of {v!r}")
@@ -144,6 +146,7 @@ def p_fix_all(I, args, kwargs, node):
     o1 = z3.ForAll([i], z3.Implies(z3.And(0 <= i, i < applied.nz()), approved_term(I, flag(z3.Select(applied.arr, i)))))
     I.oblige("call-pre", f"fix_all.only-approved-changes(O1)@{getattr(node, 'lineno', '?')} [C04]", o1)
     I.oblige("call-pre", f"fix_all.session-may-write(O2)@{getattr(node, 'lineno', '?')} [C04]", gate_open(I))
+    I.oblige("call-pre", f"fix_all.before-the-unused-externals-scan@{getattr(node, 'lineno', '?')} [C08,C13]", z3.BoolVal(not I.ghost.get("unused_scanned", False)) if isinstance(I.ghost.get("unused_scanned", False), bool) else z3.Not(I.ghost["unused_scanned"].t))
     _inc(I, "n_fix_all")
     I.V.may_raise(I, "fix_all")
     return None
@@ -230,6 +233,10 @@ def p_confirm_ask(I, args, kwargs, node):
 
 
 def p_unused_externals(I, args, kwargs, node):
+    """unused_externals() reads the test files from disk: it has to run after they were rewritten, otherwise an external
+    that was persisted for a reference written in this very session looks unused (C08/C13)"""
+    _bump(I)
+    I.ghost["unused_scanned"] = True
     return fresh_value(I.ctx, parse_ty("List[Str]"), "unused")
 
 
@@ -303,7 +310,7 @@ D_POL = {
     "Confirm.ask": p_confirm_ask,
 }
 
-GHOST0 = {"used_last": "=None", "hasrepr_used": "=False", "ensured_ext": "=False", "ensured_hr": "=False", "n_enter": "=0", "n_leave": "=0", "n_fix_all": "=0", "n_persist": "=0", "n_remove": "=0", "n_suspend": "=0", "n_resume": "=0"}
+GHOST0 = {"unused_scanned": "=False", "used_last": "=None", "hasrepr_used": "=False", "ensured_ext": "=False", "ensured_hr": "=False", "n_enter": "=0", "n_leave": "=0", "n_fix_all": "=0", "n_persist": "=0", "n_remove": "=0", "n_suspend": "=0", "n_resume": "=0"}
 
 EXIT_CLAUSES = {
     # C15: "state always popped" -- on every path, normal or exceptional
@@ -358,7 +365,7 @@ contract(
         "tracked_ghost": {"persist": ["n_persist"], "remove": ["n_remove"], "fix_all": ["n_fix_all"], "leave_snapshot_context": ["n_leave"],
                           "suspend_global_capture": ["n_suspend"], "resume_global_capture": ["n_resume"], "ask": ["asked"]},
         "havoc_hook": havoc_hook,
-        "props": ["C13", "C09", "C03"],  # carried by the obligations of the tracked calls (O3, O4, O6, ensure_import order)
+        "props": ["C13", "C09", "C03", "C19", "C08", "C01"], "hook_props": ["C19"],  # carried by the obligations of the tracked calls (O3, O4, O6, ensure_import order)
     },
     safety_props=["C18", "C15"],
     assumes=["A-frame", "X13", "PS5"],
